@@ -7,7 +7,7 @@ VMM_ASSUME = ['simulated machine: physical memory = host pages (frame = host add
 
 PROP = {
     'pkg': K + '/mm/vmm',
-    'tests': [{'name': 'TestVerifC05', 'checks_quick': 8000, 'checks_thorough': 200000}],
+    'tests': [{'name': 'TestVerifC05', 'checks_quick': 100000, 'checks_thorough': 3000000}],
     'rule': 'rapid generates a kernel offset, 0-10 ELF sections that do not share a page (1 byte .. 40 pages, aligned or not, '
             'all writable/allocated/executable combinations, some below the kernel range) and 0-6 early reservations made '
             'through the real EarlyReserveRegion + Map in a boot address space on the simulated machine, optionally an '
